@@ -169,7 +169,8 @@ class Runner:
                     elif q < 0.80: ps.append('%d;2;%d;%d;%d' % (rng.choice([38, 48, 58]), rng.choice([0, 255, 256, 38, 58]), rng.choice([rng.randrange(256), 38, 48, 2, 5]), rng.choice([rng.randrange(256), 2, 5, 58])))
                     elif q < 0.86: ps.append(rng.choice(['38', '48;5', '58;2;1', '38;7', '38;2;1;2']))
                     elif q < 0.92: ps.append(str(rng.choice([77, 256, 1000, 56, 60])))
-                    elif q < 0.95: ps.append(rng.choice([' 1', '1 ', '01', '031', '04', '044', '023', '00', '000']))
+                    elif q < 0.93: ps.append(rng.choice([' 1', '1 ', '01', '031', '04', '044', '023', '00', '000']))
+                    elif q < 0.95: ps.append(rng.choice([' ', '  ', ' 0', '0 ', ' 0 ']))      # blank: the same as empty, i.e. reset
                     elif q < 0.975: ps.append(rng.choice(['4:3', '4:0', '38:2::1:2:3', ':', '38:5:208', '1:2', '58:2::0:0:255', '4:', ':1', '1:', '3:4:1']))
                     else: ps.append(rng.choice(['+1', 'x', '1:2', '?25', '-1', '1_0', '\u00b2', '\u2460']))
                 if rng.random() < 0.04:
@@ -906,6 +907,21 @@ class Runner:
                 # objects its start markers are
                 self.do_concat(nxt, ('s', rng.choice(['q', 'xy'])) if rng.random() < 0.5 else ('A', self.pick()), False, None, False)
                 return
+        if rng.random() < 0.04:
+            # directed seam: the left operand (a slice) ends with equal-valued settings around a conflicting one whose
+            # activation order is the reverse of the order of its stop markers; the right operand starts with the same
+            # values and stops its first one early — pairing the seam by value instead of by object goes wrong here
+            c1, c2 = rng.choice([('red', 'blue'), ('bold', 'faint'), ('[31', '[34'), ('underline', 'double_underline')])
+            n = rng.randint(3, 5)
+            src = self.A(self.text(n, n).replace('\x1b', 'e') or 'abcd')
+            src.apply_formatting(c1, 0, None); src.apply_formatting(c1, 1, 2); src.apply_formatting(c2, 0, 2)
+            a = src[:2]
+            t = self.text(2, 4)
+            b = self.A(t)
+            b.apply_formatting(c1, 0, 1); b.apply_formatting(c2); b.apply_formatting(c1)
+            self.add_live(a)
+            self.do_concat(a, ('A', b), rng.random() < 0.4, None, True)
+            return
         if rng.random() < 0.06:
             # directed seam: verbatim multi-code settings whose codes, read together, coincide although the settings differ
             la, lb = rng.choice([('[1;31', '[4'), ('[1', '[31;4'), ('[38;5', '[9'), ('[1;3', '[4')])
